@@ -1,8 +1,10 @@
 package harness
 
 import (
+	"encoding/binary"
 	"fmt"
 	stakingtypes "github.com/cosmos/cosmos-sdk/x/staking/types"
+	"github.com/ethereum/go-ethereum/core/vm"
 	abci "github.com/tendermint/tendermint/abci/types"
 	"math/big"
 	"testing"
@@ -88,6 +90,19 @@ func proxyCode(mode string, target common.Address) []byte {
 	case "lookalike":
 		rt = append(rt, copyIn...)
 		rt = append(rt, 0x60, 0x00, 0x35, 0x60, 0x20, 0x36, 0x03, 0x60, 0x20, 0xa1, 0x00)
+	case "mixed":
+		// call data = [L (32 bytes)] [L bytes: call data of a genuine call] [topic (32 bytes)] [event data]: the contract first
+		// makes the genuine call to target (for itself; reverts if it fails) and then emits LOG1(topic, event data) from its
+		// own address - a real event of the system contract followed by a look-alike in one receipt
+		a := newAsm()
+		a.op(vm.CALLDATASIZE).push(0).push(0).op(vm.CALLDATACOPY)
+		a.push(0).push(0).push(0).op(vm.MLOAD).push(32).push(0).push(target.Bytes()...).op(vm.GAS, vm.CALL)
+		a.pushLabel("ok").op(vm.JUMPI).push(0).op(vm.DUP1, vm.REVERT)
+		a.label("ok")
+		a.push(0).op(vm.MLOAD).push(32).op(vm.ADD, vm.MLOAD)
+		a.push(0).op(vm.MLOAD).push(64).op(vm.ADD)
+		a.op(vm.DUP1, vm.CALLDATASIZE, vm.SUB, vm.SWAP1, vm.LOG1, vm.STOP)
+		rt = a.bytes()
 	}
 	init := []byte{0x60, byte(len(rt)), 0x80, 0x60, 0x0b, 0x60, 0x00, 0x39, 0x60, 0x00, 0xf3}
 	return append(init, rt...)
@@ -126,7 +141,7 @@ func newAdWorld() *adWorld {
 	if w.Val2 == "" {
 		panic("no second validator")
 	}
-	for _, mode := range []string{"forward", "fwdrevert", "delegatecall", "lookalike", "double"} {
+	for _, mode := range []string{"forward", "fwdrevert", "delegatecall", "lookalike", "double", "mixed"} {
 		w.Helpers[mode] = map[string]common.Address{}
 		for _, name := range []string{"staking", "gov"} { // fixed order: the helper addresses depend on the deployer's nonce
 			target := map[string]common.Address{"staking": stakingAddr, "gov": govAddr}[name]
@@ -139,7 +154,7 @@ func newAdWorld() *adWorld {
 		}
 	}
 	// the forwarding contracts act with their own coins
-	for _, name := range []string{"forward", "double"} {
+	for _, name := range []string{"forward", "double", "mixed"} {
 		fwd := sdk.AccAddress(w.Helpers[name]["staking"].Bytes())
 		if r := c.DeliverMsgs(rich, banktypes.NewMsgSend(rich.Acc, fwd, adCoins(adStart))); !r.OK() {
 			panic("fund forwarder: " + r.Log)
@@ -170,6 +185,9 @@ func (w *adWorld) actorAddrs(a string) []sdk.AccAddress {
 	if a == "dbl" {
 		return []sdk.AccAddress{sdk.AccAddress(w.Helpers["double"]["staking"].Bytes()), sdk.AccAddress(w.Helpers["double"]["gov"].Bytes())}
 	}
+	if a == "mix" {
+		return []sdk.AccAddress{sdk.AccAddress(w.Helpers["mixed"]["staking"].Bytes()), sdk.AccAddress(w.Helpers["mixed"]["gov"].Bytes())}
+	}
 	return []sdk.AccAddress{sdk.AccAddress(w.Helpers["forward"]["staking"].Bytes()), sdk.AccAddress(w.Helpers["forward"]["gov"].Bytes())}
 }
 
@@ -183,7 +201,7 @@ func (w *adWorld) project() M {
 		vaddr[k] = va
 	}
 	st := M{}
-	for _, a := range []string{"eoa", "fwd", "dbl"} {
+	for _, a := range []string{"eoa", "fwd", "dbl", "mix"} {
 		var voted int64
 		bal, unb := sdk.ZeroInt(), sdk.ZeroInt()
 		del := map[string]sdk.Int{"v1": sdk.ZeroInt(), "v2": sdk.ZeroInt()}
@@ -301,6 +319,19 @@ func driveAdapter(t *testing.T, in, out string, seed int64) {
 					enc, err := ev.Inputs.Pack(eventArgs...)
 					must(err)
 					data = append(ev.ID.Bytes(), enc...)
+				case "mixed":
+					// the helper makes the genuine call (acting for itself) and then emits a look-alike event naming the EOA
+					to = w.Helpers[path][contract]
+					abi := stakingcontract.StakingContract.ABI
+					if contract == "gov" {
+						abi = govcontract.GovContract.ABI
+					}
+					ev := abi.Events[eventName]
+					enc, err := ev.Inputs.Pack(eventArgs...)
+					must(err)
+					l := make([]byte, 32)
+					binary.BigEndian.PutUint64(l[24:], uint64(len(data)))
+					data = append(append(append(l, data...), ev.ID.Bytes()...), enc...)
 				default:
 					to = w.Helpers[path][contract]
 				}
